@@ -26,7 +26,7 @@ MARK = 'Mqxyz'
 MARK2 = 'Mqabc'
 EN = chr(8211)
 
-PAYLOADS = ['<b>x</b>', '</p>', '<script>alert(1)</script>', '&amp;', '&lt;', '&#60;', '&x-width;', '" onmouseover="x',
+PAYLOADS = ['caf\u00e9 \u00fc<x>', '<b>x</b>', '</p>', '<script>alert(1)</script>', '&amp;', '&lt;', '&#60;', '&x-width;', '" onmouseover="x',
             ']]>', '<!--', 'a<b>c', '\u00e9\u20ac', 'u\u2028v', '&copy', '<a href="x">y</a>']
 
 
@@ -53,6 +53,7 @@ POSITIONS = {
     'para': ('body {X} text', False),
     'sectitle': ('\\section{{T {X}}} body', False),
     'subtitle': ('\\section{{A}}\\subsection{{B {X}}} body', False),
+    'parenttitle': ('\\section{{P {X}}}\\subsection{{child}} body\\subsection{{child two}} more', False),
     'caption': ('\\begin{{figure}}fig\\caption{{C {X}}}\\end{{figure}}', False),
     'footnote': ('text\\footnote{{F {X}}} more', False),
     'item': ('\\begin{{itemize}}\\item I {X}\\end{{itemize}}', False),
@@ -69,13 +70,17 @@ CONFIGS = {
     'h5': ('HTML5', {('general', 'theme'): 'default'}),
     'h5min': ('HTML5', {('general', 'theme'): 'minimal'}),
     'xh': ('XHTML', {('general', 'theme'): 'default'}),
+    # output encoding different from the (utf-8) input encoding; only payloads that latin-1 can encode
+    # (the HTML5 default theme itself contains characters outside latin-1, so the minimal theme is used here)
+    'h5l1': ('HTML5', {('general', 'theme'): 'minimal', ('files', 'output-encoding'): 'iso-8859-1'}),
+    'xhl1': ('XHTML', {('general', 'theme'): 'default', ('files', 'output-encoding'): 'iso-8859-1'}),
 }
 
 
 def document(fills):
     """fills: {position: text to insert (already LaTeX-spelled)}; unfilled positions are absent"""
     body = []
-    order = ['doctitle', 'para', 'sectitle', 'subtitle', 'caption', 'footnote', 'item', 'term', 'cell', 'verbatim', 'verb',
+    order = ['doctitle', 'para', 'sectitle', 'subtitle', 'parenttitle', 'caption', 'footnote', 'item', 'term', 'cell', 'verbatim', 'verb',
              'quote', 'thmtitle', 'emph']
     for p in order:
         if p in fills:
@@ -179,7 +184,7 @@ def render_case(fills, cfgname, escape):
     rname, cfg = CONFIGS[cfgname]
     cfg = dict(cfg)
     cfg[('files', 'escape-high-chars')] = bool(escape)
-    cfg[('files', 'split-level')] = 1
+    cfg[('files', 'split-level')] = 2
     return render.render(document(fills), rname, cfg)
 
 
@@ -296,6 +301,13 @@ def run(tier, seed, rep):
                 for esc in (0, 1):
                     if quick and esc and not (cfgname == 'h5' or any(ord(c) > 127 for c in pl)):
                         continue
+                    if cfgname.endswith('l1'):
+                        try:
+                            pl.encode('iso-8859-1')
+                        except UnicodeEncodeError:
+                            continue
+                        if quick and not any(ord(c) > 127 for c in pl):
+                            continue
                     cases.append({'fills': [[pos, pl]], 'config': cfgname, 'escape': esc})
     if not quick:
         plist = list(POSITIONS)
